@@ -31,6 +31,7 @@ type Config struct {
 type stats struct {
 	assertQueries int64
 	portfolio     int64
+	goroutines    int64
 }
 
 type Job struct {
@@ -82,6 +83,8 @@ type HarnessResult struct {
 	MaxDepth      int
 	Hangs         []Violation
 	errors        int
+	Uncovered     int64
+	UncoveredWhy  []string
 }
 
 type Explorer struct {
@@ -254,7 +257,12 @@ func (e *Explorer) runPath(it *Interp, job Job) {
 				outcome, detail = "error", fmt.Sprintf("engine crash: %v\n%s", r, debug.Stack())
 			}
 		}()
+		it.startMain()
 		it.runHarness(e.fn)
+	}()
+	func() {
+		defer func() { recover() }()
+		it.endPath()
 	}()
 	if outcome == "budget" && it.cfg.hangIsViolation {
 		it.recordViolation("hang", "terminates", detail, it.anyModel())
@@ -305,6 +313,25 @@ func (e *Explorer) runPath(it *Interp, job Job) {
 	case "deadlock":
 		r.PathsDone++
 	case "error":
+		if it.tolerateUnsupported && !strings.Contains(detail, "engine crash") {
+			// the harness declared that code outside the engine's reach (reflection, templates, ...)
+			// may be met: such paths are counted as not covered instead of failing the check
+			r.Uncovered++
+			if len(r.UncoveredWhy) < 8 {
+				why := detail
+				if len(why) > 160 {
+					why = why[:160]
+				}
+				dup := false
+				for _, w := range r.UncoveredWhy {
+					dup = dup || w == why
+				}
+				if !dup {
+					r.UncoveredWhy = append(r.UncoveredWhy, why)
+				}
+			}
+			break
+		}
 		r.errors++
 		if len(r.Inconclusive) < 20 {
 			r.Inconclusive = append(r.Inconclusive, detail+" [path "+pathString(ds)+"]")
